@@ -915,6 +915,26 @@ fn optic_checkpoint_probe(out: &mut Out, path: &str, rt: &Rt, engine: &Engine, i
                 continue;
             }
             let fp0 = mc::fp_debug(&(&rt.runtime, &pc));
+            // "the state replayed at that coordinate" is itself checkpoint-independent: replaying every
+            // cursor coordinate on the checkpointed clone gives the state (Debug-equal: graph, tick
+            // history, snapshot, materialisation) the checkpoint-free replay gives — this is what
+            // every historical reading is compared with
+            if let Some(f) = rt.runtime.worldlines().get(w) {
+                for cur in 0..=info.len {
+                    let got = std::panic::catch_unwind(std::panic::AssertUnwindSafe(|| pc.replay_worldline_state_at(*w, f.state(), wt(cur))));
+                    out.reads += 1;
+                    match got {
+                        Ok(Ok(st)) => {
+                            out.c("checkpointed_replays_compared", 1);
+                            if format!("{st:?}") != format!("{:?}", info.replayed[cur as usize]) {
+                                out.v("c16:coordinate-binding:state replayed at a coordinate depends on a replay checkpoint".into(), path, json!({"checkpoint": c, "cursor": cur}));
+                            }
+                        }
+                        Ok(Err(e)) => out.v("c16:coordinate-binding:replay fails once a genuine checkpoint is retained".into(), path, json!({"checkpoint": c, "cursor": cur, "error": format!("{e:?}")})),
+                        Err(_) => out.v("c16:totality:replay panicked with a genuine checkpoint retained".into(), path, json!({"checkpoint": c, "cursor": cur})),
+                    }
+                }
+            }
             // a checkpoint is retention configuration: WHAT a coordinate shows (payload, resolved
             // coordinate) must be the same with and without it, for coordinates on BOTH sides of the
             // checkpoint (a restore that picks the checkpoint of the wrong tick shows another state)
